@@ -493,6 +493,8 @@ def visualizeBigraph (ν : Nums) (a : BigraphArgs) : Except PyErr Drawing := do
   let (scoresRow, scoresCol) :=
     if a.scoresRow.isSome ∧ a.scoresCol.isSome then (dictToArray a.scoresRow, dictToArray a.scoresCol)
     else (a.scoresRow, a.scoresCol)
+  -- biadjacency = biadjacency.copy(); biadjacency.eliminate_zeros()
+  let es := a.entries.filter fun e => e.2.2 ≠ 0
   let colorsRow ← getNodeColors ν 0 a.nRow a.labelsRow scoresRow a.probsRow.isSome a.colorRow a.labelColors
   let colorsCol ← getNodeColors ν 1 a.nCol a.labelsCol scoresCol a.probsCol.isSome a.colorCol a.labelColors
   if ¬ truthy a.width ∧ ¬ truthy a.height then throw .valueError
@@ -504,9 +506,9 @@ def visualizeBigraph (ν : Nums) (a : BigraphArgs) : Except PyErr Drawing := do
       let edgeColor := match a.edgeColor with
         | some c => c
         | none => if a.namesRow.isNone ∧ a.namesCol.isNone then py!"black" else py!"gray"
-      let ec ← getEdgeColors a.nRow a.nCol a.entries a.edgeLabels edgeColor a.labelColors
+      let ec ← getEdgeColors a.nRow a.nCol es a.edgeLabels edgeColor a.labelColors
       let stored ← ec.order.foldlM (fun out ix => do
-        if ix ≥ a.entries.length then throw PyErr.indexError
+        if ix ≥ es.length then throw PyErr.indexError
         pure (out ++ svgEdge (fun t => ν (.edge t) ix 0) (ec.colors.getD ix []))) []
       let resid := (List.range ec.residual.length).flatMap fun k =>
         svgEdge (fun t => ν (.redge t) k 0) (ec.residual.getD k (0, 0, [])).2.2
